@@ -214,6 +214,7 @@ Proof.
   - pose proof (expire_colls_tables x (map fst (s_colls s)) s [] (fun c H => H) Hs) as H.
     destruct (expire_colls s x (map fst (s_colls s)) []) as [s' evs]. exact H.
   - destruct (coll_id s coll); exact Hs.
+  - destruct (coll_id s coll); exact Hs.
   - destruct Hs; constructor; assumption.
 Qed.
 
